@@ -33,6 +33,13 @@ Definition spec_insert (nHashFuncs nTweak : N) (item : list N) (v v' : list N) :
   forall k, k < N.of_nat (length v) * 8 ->
     (spec_bit v' k = true <-> spec_bit v k = true \/ spec_selects (length v) nHashFuncs nTweak item k).
 
+(* v is v0 with exactly the bits of the items additionally set: the bit field BIP37 defines after
+   inserting [items] (in any order) into a field that started as v0 *)
+Definition spec_after (nHashFuncs nTweak : N) (items : list (list N)) (v0 v : list N) : Prop :=
+  length v = length v0 /\ Bytes v /\
+  forall k, k < N.of_nat (length v0) * 8 ->
+    (spec_bit v k = true <-> spec_bit v0 k = true \/ exists it, In it items /\ spec_selects (length v0) nHashFuncs nTweak it k).
+
 Definition spec_contains (nHashFuncs nTweak : N) (item : list N) (v : list N) : Prop :=
   forall k, spec_selects (length v) nHashFuncs nTweak item k -> spec_bit v k = true.
 
